@@ -1,0 +1,25 @@
+//go:build verif
+
+package coordinator
+
+import (
+	"time"
+
+	meta2 "github.com/openGemini/openGemini/lib/util/lifted/influx/meta"
+	"github.com/openGemini/openGemini/lib/util/lifted/vm/protoparser/influx"
+)
+
+// VerifC05WriteShardMap lets the C05 verification harness call the coordinator's fan-out of one write request over
+// the shards it touches (PointsWriter.writeShardMap -> writeRowToShard per shard) with its own meta client and store
+// transport: the context gets one row per given shard. Thin wrapper, no behaviour.
+func VerifC05WriteShardMap(mc PWMetaClient, store TSDBStore, timeout time.Duration, shards []*meta2.ShardInfo, database, rp string) error {
+	pw := NewPointsWriter(timeout)
+	pw.MetaClient = mc
+	pw.TSDBStore = store
+	ctx := getInjestionCtx()
+	defer putInjestionCtx(ctx)
+	for _, sh := range shards {
+		ctx.setShardRow(sh, &influx.Row{})
+	}
+	return pw.writeShardMap(database, rp, ctx)
+}
